@@ -81,6 +81,7 @@ type loopInfo struct {
 	frameB   map[string][]T
 	iter     *iterInfo
 	zeroOff  map[*ssa.Phi]bool
+	headSt   *State // the state at the loop head of the iteration being executed (for athead())
 	lower    map[*ssa.Phi]T
 }
 
